@@ -29,6 +29,7 @@ func runC06(c *Ctx) {
 	c06R3(c, "C06.R3")
 	c06R4(c, "C06.R4")
 	c06R5(c, "C06.R5")
+	c06R6(c, "C06.R6")
 }
 
 var authSpec = []layoutEntry{
